@@ -59,8 +59,9 @@ fn describe_pkt(data: &[u8], oti: &Oti, session_e: u16, fdt_parts: &mut FdtParts
     parts.insert((pid.sbn, pid.esi), data[pkt.data_payload_offset..].to_vec());
     let mut listing = String::new();
     let have: usize = parts.values().map(|v| v.len()).sum();
-    if have as u64 == tl && parts.len() as u64 == npk {
-        let xml: Vec<u8> = parts.values().flat_map(|v| v.iter().copied()).collect();
+    if have as u64 >= tl && parts.len() as u64 == npk {
+        let mut xml: Vec<u8> = parts.values().flat_map(|v| v.iter().copied()).collect();
+        xml.truncate(tl as usize); // Raptor symbols are padded
         if let Ok(inst) = flute::verif_hooks::fdtinstance::FdtInstance::parse(&xml) {
             let mut l: Vec<u128> = inst
                 .file
@@ -99,7 +100,10 @@ pub fn eval(input: &str) -> String {
     cfg.toi_initial_value = Some(1);
     cfg.fdt_inband_sct = false;
     let session_e: u16 = if h.len() > 7 { h[7].parse().unwrap() } else { 1400 };
-    let oti = Oti::new_no_code(session_e, 64);
+    // session FEC (used for the FDT): "rp" = Raptor without repair symbols, whose encoder refuses
+    // instances of 2 or 3 symbols, so that publish() fails depending on the size of the FDT
+    let raptor = h.len() > 8 && h[8] == "rp";
+    let oti = if raptor { Oti::new_raptor(session_e, 64, 0, 1, 4).unwrap() } else { Oti::new_no_code(session_e, 64) };
     let ep = UDPEndpoint::new(None, "224.0.0.1".to_string(), 1234);
     let obs = Arc::new(Obs(Mutex::new(Vec::new())));
     let mut out: Vec<String> = Vec::new();
@@ -115,6 +119,9 @@ pub fn eval(input: &str) -> String {
             if t.is_empty() {
                 continue;
             }
+            // size of the FDT instance a publish() would build now (same Fdt::to_xml)
+            let now_ms: u64 = match t[0] { "P" | "r" | "q" => t[1].parse().unwrap_or(0), _ => 0 };
+            let xml_len = sender.fdt_xml_data(t_ms(now_ms)).map(|x| x.len()).unwrap_or(0);
             let step = catch(std::panic::AssertUnwindSafe(|| { let tok: String = match t[0] {
                 "A" => {
                     let prio: u32 = t[1].parse().unwrap();
@@ -224,6 +231,7 @@ pub fn eval(input: &str) -> String {
             tok.push('{');
             tok.push_str(&evs.join(","));
             tok.push('}');
+            tok.push_str(&format!("x{:x}", xml_len));
             toks.push(tok);
         }
         out.extend(toks);
@@ -277,7 +285,8 @@ fn gen_scenario(rng: &mut Rng, big: bool) -> String {
     }
     let qs: Vec<String> = prios.iter().map(|p| format!("{}:{}", p, rng.below(4))).collect();
     let inter = rng.range(1, 3);
-    let session_e = *rng.pick(&[1400u64, 1400, 1400, 200, 64]);
+    let raptor = full && rng.chance(1, 4);
+    let session_e = if raptor { *rng.pick(&[256u64, 400, 512, 700, 1400]) } else { *rng.pick(&[1400u64, 1400, 1400, 200, 64]) };
     let mut ops: Vec<String> = Vec::new();
     let nops = if big { rng.range(20, 70) } else { rng.range(6, 28) };
     let horizon = *rng.pick(&[50u64, 400, 3000, 20000]);
@@ -327,7 +336,7 @@ fn gen_scenario(rng: &mut Rng, big: bool) -> String {
             5 => {
                 if rng.chance(1, 6) {
                     ops.push("C".into());
-                } else {
+                } else if !raptor {
                     ops.push(format!("q {}", now));
                 }
             }
@@ -341,7 +350,7 @@ fn gen_scenario(rng: &mut Rng, big: bool) -> String {
         }
     }
     format!(
-        "S {} {} {} {} {} {} {} ; {}",
+        "S {} {} {} {} {} {} {}{} ; {}",
         if full { "full" } else { "bt" },
         dur,
         fcar,
@@ -349,6 +358,7 @@ fn gen_scenario(rng: &mut Rng, big: bool) -> String {
         qs.join(","),
         inter,
         session_e,
+        if raptor { " rp" } else { "" },
         ops.join(" ; ")
     )
 }
